@@ -343,6 +343,24 @@ Fixpoint strip_ch_prefix_nc (l : list N) (ch max : N) : list N :=
   | x :: t => if (0 <? max) && ((x =? to_upper ch) || (x =? to_lower ch)) then strip_ch_prefix_nc t ch (max - 1) else l
   end.
 
+(* WithInsertedWord / WithAppendedWord / WithPrependedWord: insert [w], putting [sep] between it and its
+   neighbours unless a separator is already there *)
+Definition is_nil (l : list N) : bool := match l with [] => true | _ => false end.
+Definition l0_with_word (l : list N) (idx : N) (w sep : list N) : list N :=
+  if is_nil w then l
+  else if is_nil sep then l0_insert l idx w
+  else if lenN l <=? idx then
+    (if is_nil l || ends_with l sep || starts_with w sep then l else l ++ sep) ++ w
+  else if idx =? 0 then
+    w ++ (if is_nil l || starts_with l sep || ends_with w sep then l else sep ++ l)
+  else
+    let a := takeN idx l in
+    let b := dropN idx l in
+    let r1 := if negb (is_nil a) && negb (ends_with a sep) && negb (starts_with w sep) then a ++ sep else a in
+    let r2 := r1 ++ w in
+    let r3 := if negb (is_nil b) && negb (ends_with r2 sep) && negb (starts_with b sep) then r2 ++ sep else r2 in
+    r3 ++ b.
+
 Definition l0_padded (l : list N) (minLen : N) (right : bool) (ch : N) : list N :=
   if (lenN l <? minLen) && negb (ch =? 0)
   then (if right then l ++ repN ch (minLen - lenN l) else repN ch (minLen - lenN l) ++ l)
